@@ -177,6 +177,16 @@ def run(ctx):
         for n in bad[:1]:
             res.add(Finding('C10', 'C10.c', 'R-SENTINEL', fn.file, fn.qualname, n.lineno, norm(n.test) if hasattr(n, 'test') else norm(n),
                             '`limit` is tested by truthiness: limit=0 means "no limit" here but "nothing" in the sibling cassettes'))
+    # ---------------- only saved recordings are listed: a failing save must not leave a listable file behind
+    sv_f = fil.lookup('_save_recording')
+    enc_f = [n for n in ast.walk(sv_f.node) if isinstance(n, ast.Call) and isinstance(n.func, ast.Name) and n.func.id == 'encode']
+    opn_f = [n for n in ast.walk(sv_f.node) if isinstance(n, ast.With) and any(isinstance(i.context_expr, ast.Call) and norm(i.context_expr.func) in ('io.open', 'open') for i in n.items)]
+    before = bool(enc_f) and bool(opn_f) and all(e.lineno < opn_f[0].lineno for e in enc_f)
+    cd.instance('file cassette: serialization happens before the listed file is created', sv_f.qualname, before)
+    if not before:
+        res.add(Finding('C10', 'C10.d', 'R-AGREE', sv_f.file, sv_f.qualname, sv_f.node.lineno, 'encode inside the open-for-write block',
+                        'a save that fails while serializing leaves an empty file in the directory that lookups enumerate: every later listing of that '
+                        'category fails or yields an id that cannot be fetched'))
     # ---------------- C10.d S3 parser
     init = s3.lookup('__init__')
     comp = None
